@@ -9,7 +9,9 @@ LEAN_MODULES = ["Properties.C16"]
 THEOREMS = ["EngineModel.Properties.C16." + t for t in [
     "C16_observers_pure", "C16_observer_answer", "C16_observers_pure_any_plan", "C16_repeat", "C16_frame",
     "C16_no_write_no_change", "C16_api_observer", "C16_api_history", "C16_api_answers", "C16_crates_v1", "C16_crates_v2",
-    "C16_tracks_v2"]]
+    "C16_tracks_v2", "C16_load_database_pure", "C16_database_exists_pure", "C16_engine_library_load_pure",
+    "C16_create_or_load_existing_pure", "C16_dir_repeat", "C16_load_unguarded_counterexample",
+    "C16_engine_library_load_unguarded_counterexample"]]
 ASSUMPTIONS = [
     "SqliteSemantics (modelled, Spec/Txn.lean): a statement SQLite classifies read-only (sqlite3_stmt_readonly) leaves "
     "the connection state as it was.  Checked on every monitored application against sqlite3_total_changes, the raw "
@@ -386,12 +388,34 @@ def dir_shape_stream(ctx, rng):
             "header": {"kind": "script", "what": "%s (%d directory shapes: %s)" % (text[:300], len(shapes_hit), ",".join(shapes_hit)[:120])},
             "body": [line, "# entry point: %s   directory: %s" % (en, shape_text(sh)), "# verdict: %s" % text,
                      "# all shapes showing it: %s" % ",".join(shapes_hit)]})
+    # ---- the directory model (Lean, Spec/Dir.lean) on the same shapes: answers and the directory afterwards
+    mlines = ["dir.run %s %s %s %s" % (sh, en, s1, s2) for sh, en, s1, s2, d in res["probes"]]
+    mo = runner.run_model_script(mlines) if mlines else []
+    agree = 0
+    for (sh, en, s1, s2, d), ml, o in zip(res["probes"], mlines, mo):
+        m = re.match(r"ok a1=(\S+) a2=(\S+) after=(\S+)$", o)
+        if not m:
+            res["divergences"].append({"input": ml, "impl": "probe answered", "model": o[:100]})
+            continue
+        full = en in ("engine.load_and_observe", "v2.engine_library.load_and_observe", "engine.load_database(1-arg)", "engine.create_or_load_database(3-arg)")
+        def norm(x):
+            return "loaded" if (full and x.startswith("loaded")) else x
+        impl = (norm(G.answer_class(d["a1"])), norm(G.answer_class(d["a2"])), G.shape_of_listing(d["l1"]))
+        model = (norm(m.group(1)), norm(m.group(2)), m.group(3))
+        if en.endswith("load_and_observe") and model[0] == "loaded" and impl[2] == model[2]:
+            # the model covers the load; reading a loaded but damaged library (e.g. an empty p.db) may throw
+            impl = model
+        if impl != model:
+            res["divergences"].append({"input": ml, "impl": "a1=%s a2=%s after=%s" % impl, "model": "a1=%s a2=%s after=%s" % model})
+        else:
+            agree += 1
+    res["model_agrees_on"] = agree
     seen_fn = {ENTRY_FUNCTION.get(e, e) for e in entries}
     for pb in scan_engine_headers(seen_fn):
         res["divergences"].append({"input": "public headers under include/djinterop/engine", "impl": pb,
                                    "model": "every public function that takes a directory is an exercised observer or a creator"})
     res["hist"] = {"schema_pairs": ["%s+%s" % p for p in pairs], "shapes": len(DIR_SHAPES), "entry_points": entries,
-                   "probes": res["evaluations"], "answers_per_entry": answers,
+                   "probes": res["evaluations"], "answers_per_entry": answers, "directory_model_agrees_on(probes)": res.get("model_agrees_on", 0),
                    "create_or_load_judged_as_observer_on": sum(1 for sh in DIR_SHAPES if library_present(sh))}
     return res
 
